@@ -1,0 +1,72 @@
+//go:build verif
+
+// Contracts for the deductive verifier in /verif (comment-only: adds no declarations).
+package ldap
+
+//@ import "github.com/Cloud-Foundations/keymaster/lib/simplestorage"
+//@ import "github.com/Cloud-Foundations/keymaster/lib/authutil"
+//@ import "net/url"
+//@ import "crypto/x509"
+//@ use time logging errors fmt
+
+// ---- C07: the directory's verdict is final; the signed offline cache only fills outages -------------------------
+// Ghost context of one authentication attempt (zero at the entry of passwordAuthenticate).
+// some directory server answered in this attempt, and what it said
+//@ ghost var ghostDirAnswered bool
+//@ ghost var ghostDirVerdict bool
+// the signed cache record fetched last: for whom, whether one was returned, its hash
+//@ ghost var ghostFetchedUser string
+//@ ghost var ghostFetchedOK bool
+//@ ghost var ghostFetchedHash string
+// the hash just computed from the submitted password; the outcome of the last comparison with the fetched hash
+//@ ghost var ghostNewHashOK bool
+//@ ghost var ghostNewHash string
+//@ ghost var ghostHashMatched bool
+// cache effects of this attempt
+//@ ghost var ghostUpserted bool
+//@ ghost var ghostDeleted bool
+
+//@ func (*PasswordAuthenticator).passwordAuthenticate
+//@   handler passwordAuthenticate
+//@   atcall authutil.CheckLDAPUserPassword sets ghostDirAnswered bool (u url.URL, bindDN string, bindPassword string, timeoutSecs uint, rootCAs *x509.CertPool, ok bool, err error) :: true if err == nil
+//@   atcall authutil.CheckLDAPUserPassword sets ghostDirVerdict bool (u url.URL, bindDN string, bindPassword string, timeoutSecs uint, rootCAs *x509.CertPool, ok bool, err error) :: ok if err == nil
+//@   atcall authutil.CheckLDAPUserPassword requires (u url.URL, bindDN string, bindPassword string, timeoutSecs uint, rootCAs *x509.CertPool) :: bindPassword == bytesToStr(password) && !ghostDirAnswered  #C07.asks-with-submitted-password @C07
+//@   atcall (*PasswordAuthenticator).updateOrDeletePasswordHash requires (pa2 *PasswordAuthenticator, valid2 bool, username2 string, password2 []byte) :: ghostDirAnswered && valid2 == ghostDirVerdict && username2 == username && same(password2, password)  #C07.cache-follows-verdict @C07
+//@   atcall simplestorage.SimpleStore).GetSigned requires (st simplestorage.SimpleStore, key string, dataType int) :: key == username && dataType == passwordDataType && !ghostDirAnswered  #C07.fallback-only-on-outage @C07
+//@   atcall simplestorage.SimpleStore).GetSigned sets ghostFetchedUser string (st simplestorage.SimpleStore, key string, dataType int, ok bool, data string, err error) :: key
+//@   atcall simplestorage.SimpleStore).GetSigned sets ghostFetchedOK bool (st simplestorage.SimpleStore, key string, dataType int, ok bool, data string, err error) :: ok && err == nil
+//@   atcall simplestorage.SimpleStore).GetSigned sets ghostFetchedHash string (st simplestorage.SimpleStore, key string, dataType int, ok bool, data string, err error) :: data
+//@   atcall authutil.Argon2CompareHashAndPassword requires (hash string, password2 []byte) :: ghostFetchedOK && ghostFetchedUser == username && hash == ghostFetchedHash && same(password2, password)  #C07.compares-users-own-record @C07
+//@   atcall authutil.Argon2CompareHashAndPassword sets ghostHashMatched bool (hash string, password2 []byte, err error) :: err == nil
+//@   ensures ghostDirAnswered ==> valid == ghostDirVerdict && err == nil                               #C07.verdict-final @C07
+//@   ensures !ghostDirAnswered && valid ==> ghostFetchedOK && ghostFetchedUser == username && ghostHashMatched   #C07.cache-decides-only-on-outage @C07
+//@   ensures ghostDirAnswered && ghostDirVerdict && pa.storage != nil && ghostNewHashOK ==> ghostUpserted    #C07.acceptance-refreshes @C07
+//@   ensures ghostDirAnswered && !ghostDirVerdict && ghostFetchedOK && ghostHashMatched ==> ghostDeleted     #C07.rejection-evicts @C07
+//@   loop 1 () invariant !ghostDirAnswered && !ghostUpserted && !ghostDeleted  #C07.no-answer-yet @C07
+//@   loop 2 () invariant !ghostDirAnswered && !ghostUpserted && !ghostDeleted  #C07.no-answer-yet-inner @C07
+
+//@ func (*PasswordAuthenticator).updateOrDeletePasswordHash
+//@   atcall authutil.Argon2MakeNewHash requires (password2 []byte) :: valid && same(password2, password)                #C07.hash-of-submitted-password @C07
+//@   atcall authutil.Argon2MakeNewHash sets ghostNewHashOK bool (password2 []byte, hash string, err error) :: err == nil
+//@   atcall authutil.Argon2MakeNewHash sets ghostNewHash string (password2 []byte, hash string, err error) :: hash
+//@   atcall simplestorage.SimpleStore).UpsertSigned requires (st simplestorage.SimpleStore, key string, dataType int, expiration int64, data string) :: valid && key == username && dataType == passwordDataType && ghostNewHashOK && data == ghostNewHash  #C07.writes-only-confirmed-password @C07
+//@   atcall simplestorage.SimpleStore).UpsertSigned requires (st simplestorage.SimpleStore, key string, dataType int, expiration int64, data string) :: expiration == (nowNanos() + int64(pa.expirationDuration)) / 1000000000  #C07.expiry-from-now @C07
+//@   atcall simplestorage.SimpleStore).UpsertSigned sets ghostUpserted bool (st simplestorage.SimpleStore, key string, dataType int, expiration int64, data string, err error) :: true
+//@   atcall simplestorage.SimpleStore).GetSigned requires (st simplestorage.SimpleStore, key string, dataType int) :: !valid && key == username && dataType == passwordDataType  #C07.evict-looks-at-own-record @C07
+//@   atcall simplestorage.SimpleStore).GetSigned sets ghostFetchedUser string (st simplestorage.SimpleStore, key string, dataType int, ok bool, data string, err error) :: key
+//@   atcall simplestorage.SimpleStore).GetSigned sets ghostFetchedOK bool (st simplestorage.SimpleStore, key string, dataType int, ok bool, data string, err error) :: ok && err == nil
+//@   atcall simplestorage.SimpleStore).GetSigned sets ghostFetchedHash string (st simplestorage.SimpleStore, key string, dataType int, ok bool, data string, err error) :: data
+//@   atcall authutil.Argon2CompareHashAndPassword requires (hash string, password2 []byte) :: ghostFetchedOK && hash == ghostFetchedHash && same(password2, password)  #C07.evict-compares-own-record @C07
+//@   atcall authutil.Argon2CompareHashAndPassword sets ghostHashMatched bool (hash string, password2 []byte, err error) :: err == nil
+//@   atcall simplestorage.SimpleStore).DeleteSigned requires (st simplestorage.SimpleStore, key string, dataType int) :: !valid && key == username && dataType == passwordDataType && ghostFetchedOK && ghostHashMatched  #C07.evicts-only-rejected-cached-password @C07
+//@   atcall simplestorage.SimpleStore).DeleteSigned sets ghostDeleted bool (st simplestorage.SimpleStore, key string, dataType int, err error) :: true
+//@   ensures valid && pa.storage != nil && ghostNewHashOK ==> ghostUpserted                                  #C07.refresh @C07
+//@   ensures !valid && pa.storage != nil && ghostFetchedOK && ghostHashMatched ==> ghostDeleted               #C07.evict @C07
+//@   ensures !valid ==> !ghostUpserted || old(ghostUpserted)                                               #C07.no-write-on-rejection @C07
+
+// cached hashes are written by the directory-confirmed path only
+//@ callers simplestorage.SimpleStore).UpsertSigned only updateOrDeletePasswordHash  #C07.single-writer @C07
+
+// the cache lifetime is 96 hours
+//@ func newAuthenticator
+//@   ensures ret1 == nil ==> ret0.expirationDuration == 96 * time.Hour        #C07.ninety-six-hours @C07
